@@ -9,12 +9,14 @@ TIMEOUT = {"quick": 900, "thorough": 3000}
 MIN_EVALUATIONS = {"quick": 10000, "thorough": 10000}  # fewer oracle evaluations than this means the workload collapsed: inconclusive
 RULE = ("random projects/memory images/configurations as for C01; each write() call carries 1-12 requests (atomic values at integer "
         "boundaries, REAL incl. infinities/denormals, array slices with start index and over-long value lists, members, bits of "
-        "SINT/INT/DINT/LINT, several bits of one word, BOOL-array elements and aligned DWORD ranges, BOOL members, strings shorter/equal/longer "
+        "SINT/INT/DINT/LINT, several bits of one word, BOOL-array elements and aligned DWORD ranges (true elements also spelled 1 / 2 / 0xFF / -1: "
+        "judged by truthiness), BOOL members, strings shorter/equal/longer "
         "than capacity, nested structure dicts, duplicates, sizes forcing fragmented writes); the whole controller memory is snapshotted "
         "before the call and diffed after it against the reference expectation (addressed bytes = reference encoding, padding/hidden/after-LEN "
         "bytes don't-care, every other byte unchanged); the target's journal of executed write services is matched against the requests "
         "(exactly one Write / one tiling fragment sequence / one read-modify-write per word with exact-width masks touching only requested "
-        "bits); each written address is read back through the driver. distinct = (request shape, value kind, service path, config) evaluated")
+        "bits); each written address is read back through the driver; every fourth project is written through a second driver (init_tags=False, "
+        "shared tag list) whose first connected request - Forward Open and its fallback included - is one of these writes. distinct = (request shape, value kind, service path, config) evaluated")
 ASSUMPTIONS = [
     "reference target validates like a controller: type code / structure handle must match, data length must equal count x element size, read-modify-write length must be 2 + 2 x size",
     "requests of one call that overlap in memory are judged at journal level only (application order between requests is not stated)",
